@@ -87,7 +87,7 @@ def wiring_scenarios():
     ops = [reg(1), reg(2), mine([D(2)]), mine([D(1)]), ff(5, "end")] + RESTART + [
         add(1, 1, valid(1)), get(1, 1), add(1, 2, valid(2)), get(1, 2), sub(1),
         mine([D(4)]), mine([D(3)]), ff(5, "each"), add(2, 3, valid(3)), get(2, 3), add(2, 4, valid(4)), get(2, 4), sub(2)]
-    out.append(scen("e2e-cache-window-restart", CFG_A, ops, ["C01", "C02"]))
+    out.append(scen("e2e-cache-window-restart", CFG_A, ops, ["C01", "C02", "C03"]))
 
     # (5) index slice: the Responder is given the 100 boot blocks.  Before the first start the node already has penalties
     # confirmed 100 / 99 blocks below the boot tip (206) and their disputes in the tip: at the start only the one in the 100th
@@ -99,7 +99,7 @@ def wiring_scenarios():
            add(1, 1, valid(1)), get(1, 1), add(1, 2, valid(2)), get(1, 2), add(1, 3, valid(3)), get(1, 3), sub(1)] + RESTART + [
            add(2, 2, valid(2)), get(2, 2), add(2, 1, valid(1)), get(2, 1), sub(2), mine([]), get(1, 2), get(2, 2), add(2, 3, valid(3)), get(2, 3),
            sub(1), sub(2)]
-    out.append(scen("e2e-index-boundary", CFG_L, ops, ["C01", "C02", "C04"], pre=pre))
+    out.append(scen("e2e-index-boundary", CFG_L, ops, ["C01", "C02", "C04", "C03"], pre=pre))
 
     # (6) restart with a backlog: three blocks (two breaches) mined while the daemon is down are processed by the catch-up poll
     # of the bootstrap, before the interfaces come up
